@@ -75,4 +75,11 @@ def r9(run, tree):
     run.cur_rule = cur
 
 
-RULES = [r1, r2, r3, r4_r5, r6, r7, r9]
+def r_layer_views(run, tree):
+    from . import layer_folds as lf
+    run.rule("C03.R10", "component views and copies of a Layer keep its operation and options (shared with C19): map(layer.x) is reduced with the layer's operation",
+             "D7 fold of the Layer class", "", floor=4)
+    lf.check_layer_copies(run, tree)
+
+
+RULES = [r_layer_views, r1, r2, r3, r4_r5, r6, r7, r9]
